@@ -110,8 +110,87 @@ def wide(nbind, nmembers, nfuncs, nentries):
     return "\n".join(L) + "\n"
 
 
+HDR3 = ["@group(0) @binding(0) var<storage, read_write> data: array<f32, 4>;",
+        "@group(0) @binding(1) var<uniform> aux: vec4<f32>;"]
+
+
+def let_chain(depth, call_arg):
+    """each let uses the previous value twice (a DAG through shared handles); optionally the
+    last value is a call argument"""
+    L = list(HDR3) + ["fn consume(x: f32, y: f32) -> f32 { return x + y + aux.x; }",
+                      "@compute @workgroup_size(1) fn c0() {", "  let v0 = data[0] + aux.y;"]
+    for k in range(1, depth + 1):
+        L.append("  let v%d = v%d * v%d + 0.25;" % (k, k - 1, k - 1))
+    if call_arg:
+        L.append("  data[1] = consume(v%d, v%d);" % (depth, depth - 1))
+    else:
+        L.append("  data[1] = v%d;" % depth)
+    L.append("}")
+    return "\n".join(L) + "\n"
+
+
+def nested(kind, depth):
+    """control flow nested `depth` levels deep with a helper call at the bottom"""
+    L = list(HDR3) + ["fn leaf() -> f32 { data[2] = aux.z; return data[2]; }",
+                      "@compute @workgroup_size(1) fn c0() {", "  var i: u32 = 1u;",
+                      "  var acc: f32 = 0.0;"]
+    open_, close = {
+        "switch_multi": ("switch (i) { case 1u, 2u, 3u, 4u: {", "} case 9u: { acc = acc + 1.0; } "
+                                                                "default: { } }"),
+        "switch_single": ("switch (i) { case 1u: {", "} default: { } }"),
+        "if_else": ("if (acc < 1e30) { acc = acc + 1.0; } else {", "}"),
+        "if": ("if (acc < 1e30) {", "}"),
+        "loop": ("loop { if (acc > 1e30) { break; }", " break; }"),
+        "loop_continuing": ("loop { if (i > 5u) { break; } continuing { i = i + 1u;", "} }"),
+        "block": ("{", "}"),
+    }[kind]
+    for _ in range(depth):
+        L.append("  " + open_)
+    L.append("  acc = acc + leaf();")
+    for _ in range(depth):
+        L.append("  " + close)
+    L.append("  data[3] = acc;")
+    L.append("}")
+    return "\n".join(L) + "\n"
+
+
+def many_callsites(n, value):
+    L = list(HDR3)
+    if value:
+        L.append("fn h() -> f32 { return data[0] + aux.x; }")
+        L.append("fn mid() -> f32 { return %s; }" % " + ".join(["h()"] * n))
+        L.append("@compute @workgroup_size(1) fn c0() { data[1] = %s; }" % " + ".join(
+            ["mid()"] * min(n, 40)))
+    else:
+        L.append("fn h() { data[0] = aux.x; }")
+        L.append("fn mid() { %s }" % " ".join(["h();"] * n))
+        L.append("@compute @workgroup_size(1) fn c0() { %s }" % " ".join(["mid();"] * min(n, 40)))
+    return "\n".join(L) + "\n"
+
+
+def long_body(n):
+    L = list(HDR3) + ["@compute @workgroup_size(1) fn c0() {", "  var acc: f32 = 0.0;"]
+    for k in range(n):
+        L.append("  acc = acc + data[%d] * aux.%s;" % (k % 4, "xyzw"[k % 4]))
+    L.append("  data[0] = acc;")
+    L.append("}")
+    return "\n".join(L) + "\n"
+
+
 def families(tier):
     F = []
+    for d in [4, 8, 16, 24, 32, 48]:
+        F.append(("let_chain_call_arg", d, let_chain(d, True)))
+        F.append(("let_chain_plain", d, let_chain(d, False)))
+    for kind in ("switch_multi", "switch_single", "if_else", "if", "loop", "loop_continuing",
+                 "block"):
+        for d in [2, 4, 8, 12, 16, 20, 24]:
+            F.append(("nested_" + kind, d, nested(kind, d)))
+    for n in [4, 16, 64, 200]:
+        F.append(("many_callsites_value", n, many_callsites(n, True)))
+        F.append(("many_callsites_void", n, many_callsites(n, False)))
+    for n in [16, 64, 200, 390]:
+        F.append(("long_body", n, long_body(n)))
     deep = [4, 8, 12, 16, 20, 24, 32, 48, 64]
     for d in deep:
         F.append(("value_chain", d, chain(d, True)))
@@ -292,7 +371,7 @@ def main(tier, replay, t0):
             continue
         ir = res["ref"]["ir"]
         N = ir["functions"] + ir["entry_points"] + ir["statements"] + ir["expressions"] + \
-            ir["types"] + ir["globals"] + ir["members"]
+            ir["types"] + ir["globals"] + ir["members"] + ir["blocks"]
         steps = sum(res["steps"])
         cpu = res["cpu_ns"] / 1e9
         distinct.add(src)
@@ -316,7 +395,8 @@ def main(tier, replay, t0):
     for name, pts in per_family.items():
         pts = sorted(pts)
         big = [(n, s) for (_, n, s, _, _) in pts if s > 0]
-        if len(big) >= 4:
+        # a log-log slope is meaningless over a narrow range of N (fixed overhead dominates)
+        if len(big) >= 4 and max(n for n, _ in big) >= 3 * min(n for n, _ in big):
             xs = [math.log(n) for n, _ in big]
             ys = [math.log(s) for _, s in big]
             mx, my = sum(xs) / len(xs), sum(ys) / len(ys)
@@ -344,4 +424,4 @@ def main(tier, replay, t0):
         "the bound constants (8*N^2 steps, 2 s CPU for <=400 lines, exponent <= 2.5) are ours, "
         "chosen far above what a linear walk needs on this machine (dev profile)",
         "N is counted by naga on the parsed module (functions, entry points, statements, "
-        "expressions, types, struct members, globals)"], inconclusive=inconclusive)
+        "expressions, types, struct members, globals, blocks); the growth exponent is fitted only for families whose N spans a factor >= 3"], inconclusive=inconclusive)
